@@ -146,7 +146,7 @@ enum Ctr {
     CT_P_HKDF_CROSS_8160, CT_P_HKDF_AFTER_EXHAUST, CT_P_HKDF_ONESHOT_8160, CT_P_HKDF_ONESHOT_REFUSED, CT_P_HKDF_EXPAND,
     CT_P_HKDF_ZERO_LEN, CT_P_HKDF_EMPTY_SALT, CT_P_HKDF_LEFTOVER_SERVE,
     CT_P_PRNG_AUTORESEED_MID, CT_P_PRNG_AUTORESEED_TWICE, CT_P_PRNG_SHORT_ON_AUTO, CT_P_PRNG_CARRY_CHAIN, CT_P_PRNG_GEN,
-    CT_P_PRNG_LIMIT_LOWERED_BELOW, CT_P_PRNG_FEED_AT_EDGE, CT_P_PRNG_GEN_TO_EDGE, CT_P_PRNG_OVER_1M,
+    CT_P_PRNG_LIMIT_LOWERED_BELOW, CT_P_PRNG_FEED_AT_EDGE, CT_P_PRNG_FEED_RUN, CT_P_PRNG_GEN_TO_EDGE, CT_P_PRNG_OVER_1M,
     CT_P_PRNG_INIT_FAIL, CT_P_PRNG_RESEED_FAIL, CT_P_PRNG_NULLCB, CT_P_PRNG_SYSTEM, CT_P_PRNG_TWIN_FLIP, CT_P_PRNG_TWIN_EQUIV,
     CT_P_TRNG_CALLS, CT_P_TRNG_SUCCESS_AFTER_RETRY, CT_P_TRNG_PERMANENT, CT_P_TRNG_FD_OPENED,
     CT_P_FREE_CHECKED, CT_P_FREE_NEVER_INIT, CT_P_FREE_MID, CT_P_FREE_AFTER_FINAL, CT_P_FREE_TWICE, CT_P_CLEAN_CHECKED,
